@@ -471,6 +471,10 @@ func matchPrefix(prefixes []string, key string) (string, bool) {
 		if key == p || strings.HasPrefix(key, p+".") || strings.HasPrefix(key, p+"#") {
 			return p, true
 		}
+		// "MF:pkg.Type.name*": every model field of the type whose name starts with `name`
+		if strings.HasSuffix(p, "*") && strings.HasPrefix(key, strings.TrimSuffix(p, "*")) {
+			return p, true
+		}
 	}
 	return "", false
 }
